@@ -658,4 +658,50 @@ theorem stepOk_of_same (db : Db) (now : Time) (db' : Db) (now' : Time) (hnow : n
   simp only [hd, List.take_length, List.drop_length, Bool.and_eq_true]
   exact ⟨rowsUpdOk_refl db now db' hm db.dels, rfl⟩
 
+theorem rowsUpdOk_map (db : Db) (now : Time) (db' : Db) (g : Delivery → Delivery)
+    (hg : ∀ d, rowUpdOk db now db' d (g d) = true) : ∀ l : List Delivery, rowsUpdOk db now db' l (l.map g) = true
+  | [] => rfl
+  | d :: r => by simp only [List.map_cons, rowsUpdOk, Bool.and_eq_true]; exact ⟨hg d, rowsUpdOk_map db now db' g hg r⟩
+
+/-- a step that rewrites rows in place (same subscriptions and messages) -/
+theorem stepOk_of_map (db : Db) (now : Time) (db' : Db) (now' : Time) (g : Delivery → Delivery) (hnow : now ≤ now')
+    (hd : db'.dels = db.dels.map g) (hs : db'.subs = db.subs)
+    (hg : ∀ d ∈ db.dels, rowUpdOk db now db' d (g d) = true) :
+    stepOk true db now db' now' = true := by
+  unfold stepOk
+  simp only [Bool.and_eq_true, decide_eq_true_eq, Bool.or_eq_true]
+  refine ⟨⟨hnow, subsOk_same db db' hs⟩, Or.inl ?_⟩
+  unfold growOk
+  have hlen : db.dels.length = (db.dels.map g).length := by simp
+  simp only [hd, Bool.and_eq_true]
+  rw [hlen, List.take_length, List.drop_length]
+  refine ⟨?_, rfl⟩
+  -- position by position
+  have : ∀ l : List Delivery, (∀ d ∈ l, rowUpdOk db now db' d (g d) = true) → rowsUpdOk db now db' l (l.map g) = true := by
+    intro l
+    induction l with
+    | nil => intro _; rfl
+    | cons d r ih =>
+      intro h
+      simp only [List.map_cons, rowsUpdOk, Bool.and_eq_true]
+      exact ⟨h d List.mem_cons_self, ih (fun x hx => h x (List.mem_cons_of_mem _ hx))⟩
+  exact this db.dels hg
+
+/-- a row whose only change is its next attempt time -/
+theorem rowUpdOk_attemptAt (db : Db) (now : Time) (db' : Db) (hm : db'.msgs = db.msgs) (d : Delivery) (t : Time) :
+    rowUpdOk db now db' d { d with attemptAt := t } = true := by
+  have hk : keyOf db' { d with attemptAt := t } = keyOf db d := by unfold keyOf Db.msgById; rw [hm]
+  unfold rowUpdOk
+  simp only [beq_self_eq_true, Bool.true_and, Nat.le_refl, decide_true, hk, Nat.lt_irrefl, decide_false, Bool.false_or]
+  cases hc : d.completedAt <;> simp
+
+/-- a row that is completed, having been handed out before -/
+theorem rowUpdOk_complete (db : Db) (now : Time) (db' : Db) (hm : db'.msgs = db.msgs) (d : Delivery) (t : Time)
+    (hatt : 0 < d.attempts) : rowUpdOk db now db' d { d with completedAt := some t } = true := by
+  have hk : keyOf db' { d with completedAt := some t } = keyOf db d := by unfold keyOf Db.msgById; rw [hm]
+  unfold rowUpdOk
+  simp only [beq_self_eq_true, Bool.true_and, Nat.le_refl, decide_true, hk, Nat.lt_irrefl, decide_false, Bool.false_or,
+    Option.isSome_some, Bool.or_true, Bool.and_true, hatt]
+  simp
+
 end Mmmbbb.Ord
